@@ -43,7 +43,11 @@
 //   - tracked types: every struct with a sync.(RW)Mutex field, every type named Model, every struct
 //     with at least one pointer-receiver method (servers, groups, memory devices, wrappers — objects that
 //     are shared by pointer between the goroutines calling their methods), and the structs embedded in
-//     those; event types sent on a bus keep their `bus-shared:` treatment;
+//     those; since round 8 also the plain helper structs of the package that hang off such an object (the type,
+//     pointee, element or map value of one of its named fields: `item` records of a Collection, preset tables
+//     of models) — they are reached by whoever reaches the object, and only a lock matched through the root of
+//     the selector chain guards them, so a record that is rewritten in place while readers hold it is an
+//     unordered pair; event types sent on a bus keep their `bus-shared:` treatment;
 //
 //   - single-assignment local aliases (`cc := c`) are resolved to the variable they copy before locks
 //     are matched to accesses (aliasesOf);
@@ -53,6 +57,9 @@
 //     are constructor-phase (fresh.go);
 //
 //   - `published:` rows for the contents of stored / published messages come from published.go.
+//
+//   - `global:` rows for package-level variables written outside `init` come from globals.go (round 8): they
+//     hold package-level mutexes only — no lock of an instance guards a variable every instance shares.
 //
 // Declared (hand-justified) inputs are at the top of this file: pointee effects, single-goroutine
 // roles, constructor name patterns.
@@ -506,6 +513,17 @@ func Extract(root string) (*Table, error) {
 			}
 		}
 		pubNotes = append(pubNotes, lnotes...)
+		grow, gnotes := pa.globalRows()
+		for _, r := range grow {
+			k := r.semKey()
+			if old, ok := all[k]; ok {
+				old.Pos = appendUniq(old.Pos, r.Pos[0])
+			} else {
+				all[k] = r
+				order = append(order, k)
+			}
+		}
+		pubNotes = append(pubNotes, gnotes...)
 		for t := range pa.tracked {
 			tbl.Types = append(tbl.Types, t)
 		}
@@ -772,6 +790,47 @@ func analysePackage(root, dir string) (*pkgAn, error) {
 			trackedNames[s.name] = true
 			if !ast.IsExported(s.name) {
 				confCands[s.name] = s.obj
+			}
+		}
+	}
+	// round 8: plain helper structs (no mutex, no pointer-receiver method) that hang off a tracked object — the
+	// type, pointee, element or map value of one of its named fields — are part of that object: whoever reaches
+	// the object reaches them, and the object's lock (matched by the root identifier of the selector chain) is
+	// what guards them
+	if os.Getenv("C11_NO_PARTS") == "" {
+		var partOf func(t ast.Expr) string
+		partOf = func(t ast.Expr) string {
+			switch x := t.(type) {
+			case *ast.StarExpr:
+				return partOf(x.X)
+			case *ast.ArrayType:
+				return partOf(x.Elt)
+			case *ast.MapType:
+				return partOf(x.Value)
+			case *ast.Ident:
+				return x.Name
+			}
+			return ""
+		}
+		isStructName := map[string]bool{}
+		for _, s := range structs {
+			isStructName[s.name] = true
+		}
+		for changed := true; changed; {
+			changed = false
+			for _, s := range structs {
+				if !trackedNames[s.name] || busShared[s.name] {
+					continue
+				}
+				for _, fl := range s.st.Fields.List {
+					if len(fl.Names) == 0 {
+						continue
+					}
+					if n := partOf(fl.Type); n != "" && isStructName[n] && !trackedNames[n] {
+						trackedNames[n] = true
+						changed = true
+					}
+				}
 			}
 		}
 	}
